@@ -530,7 +530,7 @@ PROCS = {
 PROC_SITUATIONS = {
     'le_create': ['present', 'absent_cancel', 'present_cancel'],
     'le_ext_create': ['present', 'absent_cancel'],
-    'classic_create': ['present', 'absent'],
+    'classic_create': ['present', 'absent', 'present_role_switch_refused'],
     'disconnect_le': ['live', 'dead_handle', 'live_from_peripheral'],
     'disconnect_classic': ['live', 'dead_handle', 'live_from_peripheral'],
     'le_remote_features': ['live', 'dead_handle', 'live_from_peripheral'],
@@ -565,9 +565,10 @@ def proc_command(w, proc, situation, ctxd):
             supervision_timeouts=[72], min_ce_lengths=[0], max_ce_lengths=[0],
         )
     if proc == 'classic_create':
-        addr = peer.public_address if situation == 'present' else hci.Address('AA:BB:CC:DD:EE:FF', hci.Address.PUBLIC_DEVICE_ADDRESS)
+        addr = peer.public_address if situation.startswith('present') else hci.Address('AA:BB:CC:DD:EE:FF', hci.Address.PUBLIC_DEVICE_ADDRESS)
         return hci.HCI_Create_Connection_Command(
-            bd_addr=addr, packet_type=0xCC18, page_scan_repetition_mode=2, reserved=0, clock_offset=0, allow_role_switch=1
+            bd_addr=addr, packet_type=0xCC18, page_scan_repetition_mode=2, reserved=0, clock_offset=0,
+            allow_role_switch=0 if situation == 'present_role_switch_refused' else 1,
         )
     if proc in ('disconnect_le', 'disconnect_classic'):
         h = ctxd['handle'] if situation.startswith('live') else 0x0E11
@@ -621,6 +622,9 @@ def run_proc_case(proc, situation, fault, at):
                 )
             )
             ctxd['cis_handle'] = handles[0]
+        if situation == 'present_role_switch_refused':
+            # the acceptor asks to become central although the initiator does not allow a role switch
+            w.loop.create_task(w.devices[1].accept(role=hci.Role.CENTRAL, timeout=None))
         w.settle()
         w.loop.collect_exceptions()
         me, other = 0, 1
